@@ -204,6 +204,9 @@ func (CTRObfuscator) Obfuscate(plainText []byte, stationPubkey []byte) ([]byte, 
 	return tag, nil
 }
 
+// ErrEmptyPlaintext is returned by obfuscators that cannot encode a zero length plaintext.
+var ErrEmptyPlaintext = errors.New("cannot obfuscate an empty plaintext")
+
 // XORObfuscator implements the Obfuscator interface for no modification the provided tag /
 // plaintext / ciphertext. Will NOT prevent tag re-use if a registration is re-used.
 type XORObfuscator struct{}
@@ -222,11 +225,12 @@ func (XORObfuscator) TryReveal(cipherText []byte, privateKey [32]byte) ([]byte, 
 	return out, nil
 }
 
-// Obfuscate for XORObfuscator just returns the provided plaintext without modification
+// Obfuscate for XORObfuscator returns a fresh random pad followed by the plaintext XORed with that
+// pad. An empty plaintext has no encoding that TryReveal accepts, so it is rejected here.
 func (XORObfuscator) Obfuscate(plainText []byte, stationPubkey []byte) ([]byte, error) {
 	lp := len(plainText)
 	if lp == 0 {
-		return []byte{}, nil
+		return nil, ErrEmptyPlaintext
 	}
 	out := make([]byte, lp*2)
 
